@@ -97,8 +97,11 @@ GENERIC = {
     "C19": " Also (rewards module): identifier-kind agreement at every keeper call.",
 }
 
+CLAIMS["C18"] = ("comparison guard on the elapsed-time difference (finite orderings), must-pass-through store rule, expression-identity carry rule",
+    "Thin claim: decides three structural necessary conditions and nothing numeric. (1) Every accrual formula that scales by elapsed seconds (CalculationOfRewards, CalculateLendReward, CalculateBorrowInterest, CalculateStableInterest) can succeed only behind elapsed >= 0, without which (1+r)^t-1 and r*t turn negative. (2) In the stability-fee and locker-savings accrual every success path that stores the carry tracker also stores the position with its time base moved to the block time, so triggering twice does not accrue one interval twice. (3) Carry discipline in every accrue-and-carry function: what is subtracted from the tracker is Dec(TruncateInt(tracker)), that truncated amount is what is credited, and the tracker is stored afterwards on every successful path. NOT covered: sign, monotonicity and sub-additivity of the formulas as numbers, float64 rounding in math.Pow, the interest-rate model (base rate, continuity at the kink, lend <= borrow).",
+    "DESIGN.md §3 C18")
+
 NOT_APPLICABLE = {
-    "C18": "purely numeric relations between evaluations of accrual/rate functions (non-negativity, monotonicity, sub-additivity, continuity; one path through float64 math.Pow); no guard, pairing, provenance or ordering is a necessary condition of them, so no sound static argument in reach applies (DESIGN.md §3 C18, §4).",
 }
 
 ALL = ["C%02d" % i for i in range(1, 21)]
